@@ -423,7 +423,8 @@ func check(c Case) *vk.Failure {
 		return vk.Failf("of", "size.Of(%s value %+v) = %d, want %d", typ, c.V, got, want)
 	}
 	var st string
-	if f := vk.Try(fmt.Sprintf("size.Stat(value of type %s, %d, %d)", typ, c.Depth, c.MaxItem), func() { st = size.Stat(arg, c.Depth, c.MaxItem) }); f != nil {
+	depth, maxItem := max(c.Depth, 1), max(c.MaxItem, 1) // positive bounds only (what callers pass; <= 0 is undefined)
+	if f := vk.Try(fmt.Sprintf("size.Stat(value of type %s, %d, %d)", typ, depth, maxItem), func() { st = size.Stat(arg, depth, maxItem) }); f != nil {
 		f.Kind = "stat-panic"
 		return f
 	}
@@ -670,7 +671,7 @@ func genCase(t *rapid.T) Case {
 		return Case{NilArg: true}
 	}
 	ty := genType(t, 4, false)
-	return Case{T: ty, V: genValue(t, ty, 4), Depth: []int{0, 1, 2, 3, 10, -1}[gen.Uniform(t, 6, "depth")], MaxItem: []int{0, 1, 3, 100, -1}[gen.Uniform(t, 5, "maxitem")]}
+	return Case{T: ty, V: genValue(t, ty, 4), Depth: []int{1, 2, 3, 10, 100, 1 << 20}[gen.Uniform(t, 6, "depth")], MaxItem: []int{1, 2, 3, 100, 1 << 20}[gen.Uniform(t, 5, "maxitem")]} // (callers pass positive bounds; <= 0 is undefined)
 }
 
 func TestRegress(t *testing.T) { checker.Regress(t) }
@@ -706,7 +707,7 @@ func TestGrid(t *testing.T) {
 			{T{K: "shared", Elem: &leaf}, V{Elems: []V{lv}}},
 		}
 		for _, w := range wrap {
-			for _, d := range []int{0, 2} {
+			for _, d := range []int{1, 2} {
 				checker.Run(t, Case{T: w.t, V: w.v, Class: "grid", Depth: d, MaxItem: 3})
 			}
 		}
@@ -718,7 +719,7 @@ func TestGrid(t *testing.T) {
 	for _, ek := range []string{"int32", "uint8", "complex128"} {
 		ek := ek
 		for _, nk := range [][2]int{{8, 2}, {8, 0}, {8, 8}, {1, 1}, {5, 3}} {
-			for _, d := range []int{0, 1, 3} {
+			for _, d := range []int{1, 2, 3} {
 				checker.Run(t, Case{T: T{K: "overlap", Elem: &T{K: ek}}, V: V{Len: nk[0], I: nk[1]}, Class: "grid-overlap", Depth: d, MaxItem: 2})
 			}
 		}
